@@ -47,10 +47,13 @@ func sharedBadger() *badger.DB {
 	return sharedDB
 }
 
+// simBadgerTable: table size of the in-memory stores (a single value - a partition snapshot - must fit into 15% of it)
+var simBadgerTable int64 = 1 << 20
+
 func memBadger() *badger.DB {
 	// small tables: the harness opens many in-memory stores and never closes them (goroutines of abandoned
 	// "crashed" incarnations and the groups' 10 s snapshot tickers may still touch a store)
-	opt := badger.DefaultOptions("").WithInMemory(true).WithMaxTableSize(1 << 20).WithNumMemtables(2).WithNumCompactors(1).WithValueLogFileSize(1 << 20)
+	opt := badger.DefaultOptions("").WithInMemory(true).WithMaxTableSize(simBadgerTable).WithNumMemtables(2).WithNumCompactors(1).WithValueLogFileSize(simBadgerTable)
 	opt.Logger = nil
 	db, err := badger.Open(opt)
 	if err != nil {
